@@ -244,8 +244,21 @@ var Sched func(site int)
 // Yields counts scheduling points executed while counting is on.
 var Yields int64
 
+// Budget, when positive, is the number of scheduling points (function entries, loop back-edges, calls) the
+// current guarded API call may still pass; reaching zero panics with BudgetExhausted. It is the horizon that
+// turns unbounded recursion or a loop that never ends into a reportable event instead of a dead worker.
+var Budget int64
+
+// BudgetExhausted is the panic value raised when Budget runs out.
+type BudgetExhausted struct{ Site int }
+
 // Yield is a scheduling point (function entry, loop back-edge, global access).
 func Yield(site int) {
+	if Budget > 0 {
+		if Budget--; Budget == 0 {
+			panic(BudgetExhausted{site})
+		}
+	}
 	if Sched != nil {
 		Yields++
 		Sched(site)
